@@ -377,6 +377,24 @@ def run_shell(which, script, mode="c", stdin=None, timeout=20, cwd=None, env=Non
                 os.unlink(tmpf.name)
 
 
+def sp_run(cmd, input=None, timeout=None, **kw):
+    """subprocess.run with the child in its own session; on timeout the whole process group is killed (a script that
+    loops for ever in a subshell would otherwise survive as an orphan), then TimeoutExpired is raised as usual."""
+    if input is not None:
+        kw["stdin"] = subprocess.PIPE
+    kw.pop("check", None)
+    p = subprocess.Popen(cmd, start_new_session=True, **kw)
+    try:
+        out, err = p.communicate(input, timeout=timeout)
+    except subprocess.TimeoutExpired:
+        with contextlib.suppress(Exception):
+            os.killpg(p.pid, 9)
+        with contextlib.suppress(Exception):
+            p.communicate(timeout=5)
+        raise
+    return subprocess.CompletedProcess(cmd, p.returncode, out, err)
+
+
 def run_both(script, **kw):
     """Run one script under brush and under bash (the oracle). Returns (brush_result, bash_result)."""
     return run_shell("brush", script, **kw), run_shell("bash", script, **kw)
